@@ -30,8 +30,14 @@ package main
 //	                                  same source id as the job of symlink <other> (sourceIDByStat adds only the low 32 bits
 //	                                  of the symlink hash to the inode)
 //	names: 0..999 = <dir>/watch/f<n>.log; 1000..1999 = <dir>/targets/f<n>.log (outside the watched directory, reached
-//	       through symlinks only); 2000..2999 = <dir>/watch/<1-2 letters> (a base name shorter than 4 bytes)
-//	cfg items 8.. (optional, default 0): workers (0 = 2) watchChanges removeAfterMs maxEventSize cutOff k8sMeta
+//	       through symlinks only); 2000..2999 = <dir>/watch/<1-2 letters> (a base name shorter than 4 bytes);
+//	       3000..3999 = <dir>/watch/f<n>.lz4: every append writes one lz4 frame of the lines (offsets count decompressed bytes);
+//	       4000..4499 = <dir>/watch/d<k>/f<n>.log, 4500..4999 = <dir>/watch/d<k>/e/f<n>.log (sub-directories, made on demand, also
+//	       while file.d runs); 5000..5999 = <dir>/watch2/f<n>.log (second base directory of cfg paths = 1);
+//	       6000..6999 = <dir>/watch/x<n>.log (matched by the exclude pattern of cfg paths = 1)
+//	cfg items 8.. (optional, default 0): workers (0 = 2) watchChanges removeAfterMs maxEventSize cutOff k8sMeta paths front
+//	        (paths, front: see helperCfg)
+//	killmode 5 = SIGTERM (orderly shutdown: Pipeline.Stop) once arg events were delivered and, for arg = 0, quiescence is reached
 //	line  = (#stream len kind delayMs)  kind 2 = len empty lines, kind 3 = one undecodable line of len bytes (both dropped by the
 //	                                  pipeline: In returns EventSeqIDError); else rendered as {"stream":..,"id":N,"d":delay,"m":"x"|"S","p":"pad"}\n of
 //	                                  exactly len bytes; ids number the lines of the case in order of appearance
@@ -58,6 +64,7 @@ import (
 	"time"
 
 	"github.com/ozontech/file.d/logger"
+	"github.com/pierrec/lz4/v4"
 	"go.uber.org/zap/zapcore"
 
 	"verif/harness/hmain"
@@ -134,10 +141,15 @@ func decodeCase(cs hx.Sx) (hx.Sx, []phase) {
 // ---- line rendering ----------------------------------------------------------------------------------
 const noStream = "not_set" // pipeline.DefaultStreamName: the line carries no stream field
 
-func lineHead(l lineSpec) string {
+// criMode: the lines of the case are rendered in CRI format ("<time> <stream> F <json>\n", cfg front = 1). One case is
+// generated / executed at a time per goroutine, but cases run concurrently: the flag travels with caseB and world.
+func lineHead(l lineSpec, cri bool) string {
 	m := "x"
 	if l.kind == 1 {
 		m = "S"
+	}
+	if cri {
+		return fmt.Sprintf(`2026-01-02T15:04:05.000000000Z %s F {"id":%d,"d":%d,"m":"%s","p":"`, l.stream, l.id, l.delay, m)
 	}
 	st := ""
 	if l.stream != noStream {
@@ -146,21 +158,21 @@ func lineHead(l lineSpec) string {
 	return fmt.Sprintf(`{%s"id":%d,"d":%d,"m":"%s","p":"`, st, l.id, l.delay, m)
 }
 
-func minLen(l lineSpec) int {
+func minLen(l lineSpec, cri bool) int {
 	switch l.kind {
 	case 2:
 		return 1
 	case 3:
 		return 2
 	}
-	return len(lineHead(l)) + 3
+	return len(lineHead(l, cri)) + 3
 }
 
 func isJunk(kind int) bool { return kind == 2 || kind == 3 }
 
 // kind 2 = filler: len empty lines ("\n"), which the pipeline drops (checkInputBytes); kind 3 = one line of len bytes
 // the json decoder rejects — not lines of the property
-func render(l lineSpec) ([]byte, bool) {
+func render(l lineSpec, cri bool) ([]byte, bool) {
 	if l.kind == 2 {
 		return bytes.Repeat([]byte{'\n'}, l.length), l.length >= 1
 	}
@@ -170,7 +182,7 @@ func render(l lineSpec) ([]byte, bool) {
 		}
 		return append(bytes.Repeat([]byte{'!'}, l.length-1), '\n'), true
 	}
-	h := lineHead(l)
+	h := lineHead(l, cri)
 	pad := l.length - len(h) - 3
 	if pad < 0 {
 		return nil, false
@@ -201,6 +213,8 @@ type world struct {
 	linkPath map[int]string // op 5: the computed path of a link
 	links    map[int]linkInfo
 	rotated  int
+	cri      bool // cfg front = 1
+	noLsof   bool // the case has lz4 files: the helper runs without an lsof in PATH (see runPhase)
 }
 
 type linkInfo struct {
@@ -213,6 +227,16 @@ func (w *world) path(name int) string {
 		return p
 	}
 	switch {
+	case name >= 6000 && name < 7000:
+		return filepath.Join(w.dir, "watch", fmt.Sprintf("x%d.log", name))
+	case name >= 5000 && name < 6000:
+		return filepath.Join(w.dir, "watch2", fmt.Sprintf("f%d.log", name))
+	case name >= 4500 && name < 5000:
+		return filepath.Join(w.dir, "watch", fmt.Sprintf("d%d", (name-4500)/100), "e", fmt.Sprintf("f%d.log", name))
+	case name >= 4000 && name < 4500:
+		return filepath.Join(w.dir, "watch", fmt.Sprintf("d%d", (name-4000)/100), fmt.Sprintf("f%d.log", name))
+	case name >= 3000 && name < 4000:
+		return filepath.Join(w.dir, "watch", fmt.Sprintf("f%d.lz4", name))
 	case name >= 2000 && name < 3000: // base name of 1..2 bytes, no extension
 		n := name - 2000
 		b := string(rune('a' + n%26))
@@ -269,7 +293,18 @@ func collidingBase(inode1 uint64, contrib1 uint32, inode2 uint64) (string, bool)
 	return string(b), true
 }
 
+func isLz4(name int) bool { return name >= 3000 && name < 4000 }
+
+func lz4Frame(b []byte) []byte {
+	var buf bytes.Buffer
+	zw := lz4.NewWriter(&buf)
+	_, _ = zw.Write(b)
+	_ = zw.Close()
+	return buf.Bytes()
+}
+
 func appendBytes(path string, b []byte) error {
+	_ = os.MkdirAll(filepath.Dir(path), 0o755) // sub-directories appear with their first file
 	f, err := os.OpenFile(path, os.O_APPEND|os.O_CREATE|os.O_WRONLY, 0o644)
 	if err != nil {
 		return err
@@ -291,6 +326,7 @@ func (w *world) apply(o fileOp) []wline {
 			w.bad = "rename: bad names"
 			return nil
 		}
+		_ = os.MkdirAll(filepath.Dir(w.path(o.name2)), 0o755)
 		if err := os.Rename(w.path(o.name), w.path(o.name2)); err != nil {
 			w.bad = err.Error()
 			return nil
@@ -385,9 +421,9 @@ func (w *world) apply(o fileOp) []wline {
 		}
 		for i := range o.lines {
 			l := o.lines[i]
-			b, ok := render(l)
+			b, ok := render(l, w.cri)
 			if !ok {
-				w.bad = fmt.Sprintf("line %d: length %d < %d", l.id, l.length, minLen(l))
+				w.bad = fmt.Sprintf("line %d: length %d < %d", l.id, l.length, minLen(l, w.cri))
 				return nil
 			}
 			if isJunk(l.kind) {
@@ -408,6 +444,13 @@ func (w *world) apply(o fileOp) []wline {
 			f.lines = append(f.lines, wl)
 			fresh = append(fresh, wl)
 		}
+		if isLz4(o.name) {
+			if o.op == 2 || f.pendL != nil {
+				w.bad = "lz4: no truncation, no cut lines"
+				return nil
+			}
+			buf = lz4Frame(buf) // offsets (pos, the lines' ends) count the decompressed bytes
+		}
 		if err := appendBytes(w.path(o.name), buf); err != nil {
 			w.bad = err.Error()
 			return nil
@@ -415,7 +458,7 @@ func (w *world) apply(o fileOp) []wline {
 		f.size = pos
 		if st, err := os.Stat(w.path(o.name)); err == nil {
 			f.inode = st.Sys().(*syscall.Stat_t).Ino
-			if st.Size() != f.size {
+			if st.Size() != f.size && !isLz4(o.name) {
 				w.bad = fmt.Sprintf("size %d != %d", st.Size(), f.size)
 			}
 		}
@@ -552,6 +595,12 @@ func runPhase(w *world, cfgS hx.Sx, run int, ph phase, snapPrev snapshot, trunca
 		cmd = exec.Command(exe, args...)
 	}
 	cmd.Env = append(os.Environ(), "LOG_LEVEL=fatal", "GOMAXPROCS=2")
+	if w.noLsof {
+		// worker.go asks `lsof <file>` before it reads an lz4 file and takes ANY line of the answer that contains the letter w
+		// for a writer - "<dir>/watch/..." always does (notes/finding-C06-lz4-being-written.md). Without an lsof in PATH (the
+		// usual situation in a container image) the question fails before a fork and the file is read.
+		cmd.Env = append(cmd.Env, "PATH="+filepath.Join(w.dir, "nobin"))
+	}
 	errf, _ := os.Create(filepath.Join(w.dir, fmt.Sprintf("child%d.err", run)))
 	cmd.Stdout, cmd.Stderr = errf, errf
 	cmd.SysProcAttr = &syscall.SysProcAttr{Setpgid: true}
@@ -589,8 +638,34 @@ func runPhase(w *world, cfgS hx.Sx, run int, ph phase, snapPrev snapshot, trunca
 	exited := make(chan struct{})
 	go func() { _ = cmd.Wait(); close(exited) }()
 	kill := func() {
+		if os.Getenv("C03_COVDUMP") != "" { // measurement aid, see covDump in helper.go
+			_ = syscall.Kill(cmd.Process.Pid, syscall.SIGUSR1)
+			select {
+			case <-exited:
+			case <-time.After(2 * time.Second):
+			}
+		}
 		_ = syscall.Kill(-cmd.Process.Pid, syscall.SIGKILL)
 		<-exited
+	}
+
+	// kill mode 5: the orderly shutdown. SIGTERM, then up to 5 s for Pipeline.Stop to return and the helper to exit by itself
+	stopped := false
+	graceful := func() {
+		_ = syscall.Kill(cmd.Process.Pid, syscall.SIGTERM)
+		select {
+		case <-exited:
+			if b, _ := os.ReadFile(outPath); bytes.Contains(b, []byte("\nS\n")) {
+				stopped = true
+				note("graceful stop: Stop returned, the helper exited by itself")
+			} else {
+				note("graceful stop: the helper exited without finishing Stop")
+			}
+		case <-time.After(5 * time.Second):
+			note("graceful stop: Stop did not return within 5 s, killed")
+			kill()
+			stopped = true // still a kill for the property
+		}
 	}
 
 	status := 0
@@ -685,6 +760,11 @@ loop:
 				kill()
 				break loop
 			}
+		case 5:
+			if liveIdx == len(ph.live) && ((ph.killArg > 0 && len(ds) >= ph.killArg) || quiet()) {
+				graceful()
+				break loop
+			}
 		default:
 			if liveIdx == len(ph.live) && quiet() && now.Sub(lastGrowth) >= stall {
 				kill()
@@ -704,6 +784,9 @@ loop:
 	}
 	if selfExit && !(ph.killMode == 3 || ph.killMode == 4) {
 		status = 1
+	}
+	if ph.killMode == 5 && !selfExit && !stopped {
+		status = 1 // the helper died during the shutdown (panic / fatal inside Stop)
 	}
 	if ph.killMode == 3 || ph.killMode == 4 {
 		if selfExit {
@@ -785,6 +868,7 @@ func scratch() string {
 	scratchMu.Unlock()
 	_ = os.MkdirAll(filepath.Join(d, "watch"), 0o755)
 	_ = os.MkdirAll(filepath.Join(d, "targets"), 0o755)
+	_ = os.MkdirAll(filepath.Join(d, "watch2"), 0o755)
 	return d
 }
 
@@ -792,11 +876,26 @@ var keepDirs = os.Getenv("C03_KEEP") != ""
 
 func exec03(which int, cs hx.Sx) hx.Sx {
 	cfgS, phases := decodeCase(cs)
-	w := &world{dir: scratch(), byName: map[int]*wfile{}}
+	w := &world{dir: scratch(), byName: map[int]*wfile{}, cri: decodeCfg(cfgS).front == 1}
 	if !keepDirs {
 		defer os.RemoveAll(w.dir)
 	} else {
 		fmt.Fprintln(os.Stderr, "dir:", w.dir)
+	}
+	if decodeCfg(cfgS).paths == 3 { // the second base directory of paths.include is a symlink to the real directory
+		_ = os.Remove(filepath.Join(w.dir, "watch2"))
+		_ = os.MkdirAll(filepath.Join(w.dir, "real2"), 0o755)
+		if err := os.Symlink(filepath.Join(w.dir, "real2"), filepath.Join(w.dir, "watch2")); err != nil {
+			w.bad = err.Error()
+		}
+	}
+	for _, ph := range phases {
+		for _, o := range ph.down {
+			w.noLsof = w.noLsof || isLz4(o.name)
+		}
+		for _, l := range ph.live {
+			w.noLsof = w.noLsof || isLz4(l.op.name)
+		}
 	}
 	var runs []hx.Sx
 	var snapPrev snapshot
